@@ -19,6 +19,9 @@ use svm::Ledger;
 fn worlds(thorough: bool) -> Vec<Built> {
     let roots = stdworlds::std_roots();
     let mut v = vec![stdworlds::build_with_roots(&stdworlds::std_spec("c12-std-dfd", [Enc::Dynamic, Enc::Fixed, Enc::Dynamic], 3000, 300), &roots)];
+    let mut rw = stdworlds::build_with_roots(&stdworlds::chain_spec("c12-chain-rewards", [Enc::Fixed, Enc::Dynamic, Enc::Dynamic], 3000, 300), &stdworlds::chain_roots());
+    add_rewards(&mut rw);
+    v.push(rw);
     if thorough {
         v.push(stdworlds::build_with_roots(&stdworlds::std_spec("c12-std-fdf", [Enc::Fixed, Enc::Dynamic, Enc::Fixed], 100, 2500), &roots[..4]));
         v.push(stdworlds::build_with_roots(&stdworlds::t22_spec("c12-t22", 100, 5_000, 5_000, u64::MAX), &roots[..3]));
@@ -29,6 +32,37 @@ fn worlds(thorough: bool) -> Vec<Built> {
         v.push(stdworlds::build_with_roots(&stdworlds::ts1_spec("c12-ts1"), &ts1_roots));
     }
     v
+}
+
+/// Initialise rewards 0 and 1 on every root of a world: reward 0 keeps emitting, reward 1 emitted for a while and was then
+/// paused (emissions 0 with non-zero accumulated growth) — the state in which "initialized" and "emitting" differ.
+fn add_rewards(b: &mut Built) {
+    use svm::keys::key;
+    let w = b.w.clone();
+    let auth = w.cfg.reward_emissions_super_authority;
+    for (name, l) in b.roots.iter_mut() {
+        for i in 0..2u8 {
+            let mint = key(&format!("{}/rmint{i}", w.pool.addr));
+            if l.get(&mint).is_none() {
+                world::create_spl_mint(l, mint, 6, None);
+            }
+            let vault = world::reward_vault_key(&w.pool, i);
+            world::must("init_reward", svm::process(l, &world::ix_init_reward(&w.pool, auth, w.funder, mint, world::TOKEN, i, i == 1)));
+            let mi = spl_token::instruction::mint_to(&world::TOKEN, &mint, &vault, &world::mint_authority(), &[], 1_000_000_000_000).unwrap();
+            svm::process_builtin(l, &mi).unwrap();
+            world::must("set_emissions", svm::process(l, &world::ix_set_reward_emissions(&w.pool, auth, vault, i, (3u128 + i as u128) << 64, i == 0)));
+        }
+        l.unix_ts += 1000;
+        for p in &w.positions {
+            if p.exists(l) && p.state(l).liquidity > 0 {
+                world::must("update", svm::process(l, &world::ix_update_fees_and_rewards(p)));
+            }
+        }
+        let vault1 = world::reward_vault_key(&w.pool, 1);
+        world::must("pause reward 1", svm::process(l, &world::ix_set_reward_emissions(&w.pool, auth, vault1, 1, 0, false)));
+        l.unix_ts += 500;
+        let _ = name;
+    }
 }
 
 fn alphabet(b: &Built) -> Vec<Op> {
